@@ -51,7 +51,14 @@ def check_clone(impl, orig, cl, deep, via):
     return hits
   try:
     if not P.eq(orig, cl):
-      hits.append(('not-equal', 'pg.eq(original, copy) is False'))
+      holds_missing = []
+      D.walk(orig, lambda x, p, k: holds_missing.append(x) if isinstance(x, list) and any(
+          (not D.is_sym(v)) and P.MISSING_VALUE == v for _, v in D.sym_children(x)) else None)
+      if holds_missing:
+        hits.append(('not-equal', 'pg.eq(original, copy) is False: a pg.List that holds MISSING_VALUE (assigned while change notification is off) loses it in the copy',
+                     'list', 'holds-MISSING'))
+      else:
+        hits.append(('not-equal', 'pg.eq(original, copy) is False'))
   except Exception as e:     # pylint: disable=broad-except
     hits.append(('not-equal', 'pg.eq raises %s' % type(e).__name__))
   ps = []
@@ -111,8 +118,8 @@ class Oracle:
     self.stats['frame_checks'] += 1
     solo = impl.snapshot_solo()
     for i in range(before['n']):
-      if i in before['touched']:
-        continue
+      if i in before['touched'] or not before['solo'][i]:
+        continue          # addressed / handed over as a value / an object that currently sits inside another tree
       if solo[i] != before['solo'][i]:
         self.hits.append(('C07/frame/%s/other-root-changed' % name, '%s addressed in root #%d changed root #%d' % (name, op[1][0], i), n))
         break
@@ -125,7 +132,7 @@ class Oracle:
       for h in check_clone(impl, orig, cl, deep, via):
         clause, what = h[0], h[1]
         disc = '%s-%s' % (h[2], h[3]) if len(h) > 2 else ('deep' if deep else 'shallow')
-        self.hits.append(('C07/%s/%s/%s' % (clause, via, disc), '%s: %s' % (via, what), n))
+        self.hits.append(('C07/%s/%s/%s' % (clause, 'copy' if disc == 'list-holds-MISSING' else via, disc), '%s: %s' % (via, what), n))
       # cloning never modifies the original (nor anything else)
       if solo[:before['n']] != before['solo']:
         self.hits.append(('C07/original-modified/%s/-' % via, '%s changed an existing tree' % via, n))
